@@ -56,6 +56,9 @@ class Contract:
     note: str = ''
     float_mode: str = 'R'
     covers: list = field(default_factory=list)  # Clauses that must be satisfiable together with requires
+    locals: dict = field(default_factory=dict)  # kinds of locals initialised from empty literals
+    exsures: list = field(default_factory=list) # (ExcName, Clause): must hold at every exit raising ExcName
+    unknown_may_raise: bool = False             # calls of unknown callables may raise 'Exception'
 
 
 REGISTRY: dict[str, Contract] = {}
@@ -80,7 +83,8 @@ def _clauses(items, props=()):
 
 def contract(key, *, props=(), params=None, closure=None, result=None, requires=(), ensures=(),
              raises=(), may_raise=(), modifies=(), loops=None, mode='contract', self_cls=None,
-             lets=None, trusted=False, note='', float_mode='R', covers=()):
+             lets=None, trusted=False, note='', float_mode='R', covers=(), locals=None, exsures=(),
+             unknown_may_raise=False):
     props = tuple(props)
     lp = {}
     for k, v in (loops or {}).items():
@@ -98,7 +102,9 @@ def contract(key, *, props=(), params=None, closure=None, result=None, requires=
         raises=[(e, Clause(f'raises:{e}', t, props)) for e, t in raises],
         may_raise=list(may_raise), modifies=list(modifies), loops=lp, mode=mode,
         self_cls=self_cls, lets=dict(lets or {}), trusted=trusted, note=note,
-        float_mode=float_mode, covers=_clauses(covers, props),
+        float_mode=float_mode, covers=_clauses(covers, props), locals=dict(locals or {}),
+        exsures=[(e, Clause(f'exsures:{e}:{l}', t, props)) for e, l, t in exsures],
+        unknown_may_raise=unknown_may_raise,
     )
     REGISTRY[key] = c
     return c
